@@ -9,9 +9,9 @@
  * failing exactly the i-th allocation and N times failing the i-th and all
  * later ones.
  */
-#include <dlfcn.h>
-
 #include "vf.h"
+
+#include <dlfcn.h>
 #include "vf_poly.h"
 
 #ifndef VF_ALLOC
